@@ -90,6 +90,13 @@ def _contains(t, vs_ids, memo):
     return r
 
 
+def _has_ite(t, memo):
+    k = t.get_id()
+    if k not in memo:
+        memo[k] = z3.is_app(t) and (t.decl().kind() == z3.Z3_OP_ITE or any(_has_ite(c, memo) for c in t.children()))
+    return memo[k]
+
+
 def infer_patterns(body, vs):
     """triggers for a universally quantified hypothesis: applications of uninterpreted functions whose arguments
     are bound variables or variable-free terms (no arithmetic over a bound variable inside the trigger), so that
@@ -116,7 +123,7 @@ def infer_patterns(body, vs):
                 elif _contains(a, vs_ids, memo):
                     ok = False
                     break
-            if ok and covered:
+            if ok and covered and not _has_ite(t, {}):
                 cands.append((t, covered))
     # prefer reads of program buffers (fresh functions, named base!N) over specification functions: an
     # instance then never creates a new term matching its own trigger
@@ -426,7 +433,76 @@ def np_argmax(ex, st, a, axis=None, **kw):
         if is_conc_num(m):
             return ArrayVal((n,), lambda i: _argext_concrete(ArrayVal((m,), lambda j: arr.get(i, j), arr.dtype),
                                                              lambda x, b: s_lt(b, x))[0], 'int')
+    if axis is not None and arr.ndim >= 2:
+        return _sym_argmax_axis(ex, st, arr, axis if axis >= 0 else axis + arr.ndim, kw.get('_node'))
     raise Unsupported('argmax pattern')
+
+
+def _sym_argmax_axis(ex, st, arr, axis, node):
+    """argmax along one axis of an n-d array with symbolic extent: a fresh index function AM over the remaining axes with
+    0 <= AM < extent, every entry along the axis <= the entry at AM, and every entry before AM strictly smaller (first maximiser)"""
+    m = to_int(arr.shape[axis])
+    ex.emit(st, 'nonempty', m > 0, node, 'argmax along a non-empty axis')
+    rest = [k for k in range(arr.ndim) if k != axis]
+    AM = z3.Function(fresh_name('argmax'), *([z3.IntSort()] * len(rest)), z3.IntSort())
+    idx = [z3.Int('am_i%d' % k) for k in range(len(rest))]
+    c = z3.Int('am_c')
+
+    def cell(cc):
+        full = list(idx)
+        full.insert(axis, cc)
+        return arr.get(*full)
+    inr = z3.And(*[z3.And(x >= 0, x < to_int(arr.shape[k])) for x, k in zip(idx, rest)])
+    am = AM(*idx)
+    st.assume(z3.ForAll(idx, z3.Implies(inr, z3.And(am >= 0, am < m)), patterns=[am]))
+    le = to_z3(s_le(cell(c), cell(am)))
+    def has_ite(t):
+        return z3.is_app(t) and (t.decl().kind() == z3.Z3_OP_ITE or any(has_ite(ch) for ch in t.children()))
+    pats = [z3.MultiPattern(am, p_) for p_ in infer_patterns(to_z3(s_le(cell(c), 0)), idx + [c]) if not has_ite(p_)] or [am]
+    body1 = z3.Implies(z3.And(inr, c >= 0, c < m), le)
+    body2 = z3.Implies(z3.And(inr, c >= 0, c < am), to_z3(s_lt(cell(c), cell(am))))
+    try:
+        st.assume(z3.ForAll(idx + [c], body1, patterns=pats))
+        st.assume(z3.ForAll(idx + [c], body2, patterns=pats))
+    except z3.Z3Exception:
+        st.assume(z3.ForAll(idx + [c], body1))
+        st.assume(z3.ForAll(idx + [c], body2))
+    ex.assumed.append('model: argmax along an axis returns the first maximal index')
+    shape = tuple(arr.shape[k] for k in rest)
+    return ArrayVal(shape, lambda *i: AM(*[to_int(x) for x in i]), 'int')
+
+
+def np_nonzero(ex, st, a, **kw):
+    """np.nonzero of a 1-d boolean array of symbolic length: 1-tuple with the strictly increasing positions of the true entries"""
+    arr = as_array(st, a)
+    if arr.ndim != 1:
+        raise Unsupported('nonzero of an n-d array')
+    n = to_int(arr.shape[0])
+    K = z3.Int(fresh_name('n_nonzero'))
+    SRC = z3.Function(fresh_name('nonzero_at'), z3.IntSort(), z3.IntSort())
+    POS = z3.Function(fresh_name('nonzero_pos'), z3.IntSort(), z3.IntSort())
+    j, j2, i = z3.Ints('j j2 i')
+    cond = lambda t: to_z3(truthy(arr.get(t)))
+    st.assume(z3.And(K >= 0, K <= n))
+    st.assume(z3.ForAll([j], z3.Implies(z3.And(j >= 0, j < K), z3.And(SRC(j) >= 0, SRC(j) < n, cond(SRC(j)), POS(SRC(j)) == j)), patterns=[SRC(j)]))
+    st.assume(z3.ForAll([j, j2], z3.Implies(z3.And(j >= 0, j < j2, j2 < K), SRC(j) < SRC(j2)), patterns=[z3.MultiPattern(SRC(j), SRC(j2))]))
+    ci = cond(i)
+    body = z3.Implies(z3.And(i >= 0, i < n, ci), z3.And(POS(i) >= 0, POS(i) < K, SRC(POS(i)) == i))
+    try:
+        st.assume(z3.ForAll([i], body, patterns=[POS(i)] + infer_patterns(ci, [i])))
+    except z3.Z3Exception:
+        st.assume(z3.ForAll([i], body, patterns=[POS(i)]))
+    ex.assumed.append('model: np.nonzero(mask) of a 1-d mask lists exactly the positions of the true entries, in increasing order')
+    return (ArrayVal((K,), lambda q: SRC(to_int(q)), 'int'),)
+
+
+def torch_cat(ex, st, parts, axis=0, dim=None, **kw):
+    ex.assumed.append('model: torch tensor operations used here (cat, argmax, slicing, masked assignment, comparison) behave as their numpy counterparts')
+    return np_concatenate(ex, st, list(parts), axis=dim if dim is not None else axis, **kw)
+
+
+def torch_argmax(ex, st, a, dim=None, **kw):
+    return np_argmax(ex, st, a, axis=dim, **kw)
 
 
 def np_argmin(ex, st, a, axis=None, **kw):
@@ -624,7 +700,8 @@ def _logical(fn):
 
 LIB = {
     'np.logical_and': _logical(band), 'np.logical_or': _logical(bor), 'np.logical_not': _logical(bnot),
-    'np.exp': np_exp, 'math.exp': np_exp, 'np.logaddexp': np_logaddexp,
+    'np.exp': np_exp, 'math.exp': np_exp, 'np.logaddexp': np_logaddexp, 'np.nonzero': np_nonzero,
+    'torch.cat': torch_cat, 'torch.argmax': torch_argmax,
     'np.array': np_array, 'np.asarray': np_asarray, 'np.fromiter': lambda ex, st, v, **kw: np_array(ex, st, v), 'np.arange': np_arange, 'np.full': np_full,
     'np.ones': np_ones, 'np.zeros': np_zeros, 'np.zeros_like': np_zeros_like, 'np.minimum': np_minimum,
     'np.maximum': np_maximum, 'np.copy': np_copy, 'np.sum': np_sum, 'np.any': np_any, 'np.all': np_all,
@@ -881,7 +958,7 @@ def call_lib(ex, st, name, args, kwargs, node):
         raise Unsupported('library function %s is not modelled (line %s)' % (name, getattr(node, 'lineno', '?')))
     if name == 'math.exp':
         return fn(ex, st, *args)
-    if name.startswith('np.') and name not in ('np.array', 'np.asarray'):
+    if (name.startswith('np.') or name.startswith('torch.')) and name not in ('np.array', 'np.asarray'):
         kwargs = dict(kwargs)
         kwargs['_node'] = node
     elif name in ('builtins.max', 'builtins.min', 'builtins.sorted') and 'key' in kwargs:
@@ -913,7 +990,7 @@ def call_method(ex, st, obj, name, args, kwargs, node):
             raise Unsupported('ravel n-d')
         if name == 'tolist':
             return as_array(st, obj)
-        if name == 'astype':
+        if name in ('astype', 'cpu', 'numpy', 'detach', 'contiguous'):
             return obj
         raise Unsupported('array method %s' % name)
     if isinstance(obj, SeqVal):
